@@ -167,9 +167,18 @@ func zzCheckParse(text string) {
 		rendered, _ := v.Try(func() {
 			_ = err.Error()
 			if e, ok := err.(directives.Error); ok {
-				_ = e.Location()
+				loc := e.Location()
 				if 0 <= e.Start && e.Start <= e.End && e.End <= n {
 					_ = e.Context(1)
+					// the rendered position lies inside the input: line = 1 + number of line feeds before
+					// the error position (independent count on the same bytes)
+					lines := 1
+					for i := 0; i < e.End; i++ {
+						if text[i] == '\n' {
+							lines++
+						}
+					}
+					v.Assert(loc.Line == lines, "error-line-is-a-line-of-the-input")
 				}
 			}
 		})
